@@ -66,13 +66,16 @@ Record gen_result := {
   gr_end : res unit
 }.
 
-Definition gen_run (input : str) : gen_result :=
-  let '(rows, e) := scan_lines input in
+Definition end_res (e : scan_end) : res unit :=
+  match e with ScanEOF => Ok tt | ScanTooLong => Err ETooLong | ScanReaderErr => Err EReader end.
+
+Definition gen_run_r (input : str) (k : option nat) : gen_result :=
+  let '(rows, e) := scan_lines_r input k in
   match gen_loop g0 rows with
   | SCont s =>
       {| gr_done := frev (g_done s);
          gr_pending := match g_cur s with Some (t, _) => Some t | None => None end;
-         gr_end := match e with ScanEOF => Ok tt | ScanTooLong => Err ETooLong end |}
+         gr_end := end_res e |}
   | SErr s er =>
       {| gr_done := frev (g_done s);
          gr_pending := match g_cur s with Some (t, _) => Some t | None => None end;
@@ -83,9 +86,11 @@ Definition gen_run (input : str) : gen_result :=
 Definition opt_list {A : Type} (o : option A) : list A :=
   match o with Some a => [a] | None => [] end.
 
+Definition gen_run (input : str) : gen_result := gen_run_r input None.
+
 (* rootGeneratorSimple.generate (and the tinywasm generate): all roots or an error *)
-Definition gen_all (input : str) : res (list tree) :=
-  let g := gen_run input in
+Definition gen_all_r (input : str) (k : option nat) : res (list tree) :=
+  let g := gen_run_r input k in
   match gr_end g with
   | Ok _ => Ok (gr_done g ++ opt_list (gr_pending g))
   | Err e => Err e
@@ -95,10 +100,14 @@ Definition gen_all (input : str) : res (list tree) :=
 (* rootGeneratorSimple.generateIter: the roots yielded before the final event,
    then the final event.  A root is yielded when the next root line is met; the
    last one at end of input, unless the scanner failed. *)
-Definition gen_stream (input : str) : list tree * res unit :=
-  let g := gen_run input in
+Definition gen_all (input : str) : res (list tree) := gen_all_r input None.
+
+Definition gen_stream_r (input : str) (k : option nat) : list tree * res unit :=
+  let g := gen_run_r input k in
   match gr_end g with
   | Ok _ => (gr_done g ++ opt_list (gr_pending g), Ok tt)
   | Err e => (gr_done g, Err e)
   | Panic => ([], Panic)
   end.
+
+Definition gen_stream (input : str) : list tree * res unit := gen_stream_r input None.
